@@ -26,6 +26,7 @@ type Addr struct {
 	Base   string // elem: backing-array ref
 	Idx    string // elem / arrelem: index term
 	Parent *Addr  // arrelem: address of the array value
+	Const  string // global: known constant value (init-only global)
 	Elem   types.Type
 }
 
@@ -57,6 +58,7 @@ type Obligation struct {
 	Result  SolverResult
 	Status  string // discharged | failed | undecided
 	Cover   bool   // vacuity cover query: must be SAT
+	Candidate string
 }
 
 // KeyInfo describes one state key.
@@ -99,6 +101,7 @@ type FnVC struct {
 	curInstr ssa.Instruction
 	houdini  map[*ssa.BasicBlock][]Clause
 	axiomDefs []string
+	usedOfArr bool
 	usedExtQ  bool
 	usedSpecs map[string]bool
 	arrSlices map[string]arrSlice
@@ -243,7 +246,26 @@ func intBits(t types.Type) int {
 }
 
 // sortOf returns the SMT sort of a scalar Go type, or "" for flattened types (structs, tuples).
+var ghostPkg = types.NewPackage("$ghost", "ghost")
+var ghostTypes = map[string]*types.Named{}
+var ghostSorts = map[string]string{"StrSet": "(Array Str Bool)", "IntSet": "(Array Int Bool)", "StrIntMap": "(Array Str Int)", "IntIntMap": "(Array Int Int)"}
+
+func ghostType(name string) types.Type {
+	if t, ok := ghostTypes[name]; ok {
+		return t
+	}
+	if _, ok := ghostSorts[name]; !ok {
+		return nil
+	}
+	t := types.NewNamed(types.NewTypeName(0, ghostPkg, name, nil), types.Typ[types.Int], nil)
+	ghostTypes[name] = t
+	return t
+}
+
 func sortOf(t types.Type) string {
+	if n, ok := t.(*types.Named); ok && n.Obj().Pkg() == ghostPkg {
+		return ghostSorts[n.Obj().Name()]
+	}
 	switch u := t.Underlying().(type) {
 	case *types.Basic:
 		switch {
@@ -327,6 +349,10 @@ func zeroTerm(sort string) string {
 	}
 	if strings.HasPrefix(sort, "(Array Int ") {
 		inner := strings.TrimSuffix(strings.TrimPrefix(sort, "(Array Int "), ")")
+		return "((as const " + sort + ") " + zeroTerm(inner) + ")"
+	}
+	if strings.HasPrefix(sort, "(Array Str ") {
+		inner := strings.TrimSuffix(strings.TrimPrefix(sort, "(Array Str "), ")")
 		return "((as const " + sort + ") " + zeroTerm(inner) + ")"
 	}
 	return "0"
@@ -649,6 +675,11 @@ const preamble = `(declare-sort Str 0)
 const subAxioms = `(declare-fun gs.sub (Str Int Int) Str)
 (assert (forall ((s Str) (i Int) (j Int)) (! (=> (and (<= 0 i) (<= i j) (<= j (gs.len s))) (= (gs.len (gs.sub s i j)) (- j i))) :pattern ((gs.sub s i j)))))
 (assert (forall ((s Str) (i Int) (j Int) (k Int)) (! (=> (and (<= 0 i) (<= i j) (<= j (gs.len s)) (<= 0 k) (< k (- j i))) (= (gs.at (gs.sub s i j) k) (gs.at s (+ i k)))) :pattern ((gs.at (gs.sub s i j) k)))))
+`
+
+const ofarrAxioms = `(declare-fun gs.ofarr ((Array Int Int) Int Int) Str)
+(assert (forall ((a (Array Int Int)) (o Int) (n Int)) (! (=> (<= 0 n) (= (gs.len (gs.ofarr a o n)) n)) :pattern ((gs.ofarr a o n)))))
+(assert (forall ((a (Array Int Int)) (o Int) (n Int) (k Int)) (! (=> (and (<= 0 k) (< k n)) (= (gs.at (gs.ofarr a o n) k) (select a (+ o k)))) :pattern ((gs.at (gs.ofarr a o n) k)))))
 `
 
 const catAxioms = `(declare-fun gs.cat (Str Str) Str)
